@@ -534,6 +534,15 @@ class Interp:
             for nm in touched:
                 if nm in env and not isinstance(env[nm], (FuncRef, ClassV)) and not (isinstance(env[nm], FuncRef)):
                     env[nm] = Unknown(f"module-level value {nm} modified by a statement that is not followed (`{core.src(n)[:40]}`)")
+        for n in ast.walk(tree):
+            if isinstance(n, ast.FunctionDef):
+                gl = {nm for g in ast.walk(n) if isinstance(g, ast.Global) for nm in g.names}
+                if not gl:
+                    continue
+                for x in ast.walk(n):
+                    if isinstance(x, ast.Name) and isinstance(x.ctx, (ast.Store, ast.Del)) and x.id in gl and x.id in env \
+                            and not isinstance(env[x.id], (FuncRef, ClassV, Unknown)):
+                        env[x.id] = Unknown(f"module-level variable {x.id} is re-bound by {n.name}(): its value when a call reads it depends on the calls made before")
         if rel == "a5/core/origin.py" and "origins" in env:
             env["origins"] = TableV("origins", self.origin_len)      # the face table as every other module sees it
         return env
@@ -631,6 +640,9 @@ class Interp:
                 dst = State()
                 dst.env = dict(self.module_env(rel))
                 env[p.arg] = self.eval(dnode, dst, rel)
+        gl_ = {nm for n_ in ast.walk(fn) if isinstance(n_, ast.Global) for nm in n_.names} if not isinstance(fn, ast.Lambda) else set()
+        if gl_:
+            env["<globals>"] = frozenset(gl_)
         st.frames.append(env)
         depth = len(st.frames)
         if depth > 12:
@@ -829,6 +841,10 @@ class Interp:
         return t2
 
     def assign(self, target: ast.expr, v: Any, state: State, rel: str) -> None:
+        if isinstance(target, ast.Name) and target.id in state.env.get("<globals>", ()):
+            # `global X` + `X = ...`: the function re-binds a module-level variable.  What other functions read there afterwards
+            # (and what an exception on the way leaves behind) is not modelled: a give-up, never a silently local variable
+            raise _Unmodelled(f"assignment to the module-level variable {target.id} (declared global) at {core.loc(rel, target)}")
         if isinstance(target, ast.Name):
             state.env[target.id] = v
             state.versions[target.id] = state.versions.get(target.id, 0) + 1
